@@ -12,11 +12,13 @@
                `age_fix = false`: delta.seconds, i.e. the age modulo one day (the code before that repair)
 
    PART 2  the registry caches that exist only inside `caching_context()` (registry/_caching_context.py):
-     collection record cache (chain definitions) and collection summary cache, with the invalidation
-     points as coded: a summary write clears the summary cache (/repo 72f8c65); setCollectionChain updates the
-     record cache and clears the summary cache (/repo d43ed5b).  `chain_fix = true` is the code as it is;
-     `chain_fix = false` is the code before d43ed5b (setCollectionChain left the summary cache alone), used
-     only by the refutation witness. *)
+     collection record cache (chain definitions, by collection NAME) and collection summary cache (by collection
+     KEY; SQLite hands the key of a removed collection to the next one registered: new key = 1 + largest key),
+     with the invalidation points as coded: a summary write clears the summary cache (/repo 72f8c65);
+     setCollectionChain updates the record cache and clears the summary cache (/repo d43ed5b); removeCollection
+     discards the record and clears the summary cache (/repo 65fc362).
+     `chain_fix` / `rm_fix` = true is the code as it is; false is the code before d43ed5b / 65fc362 (used only by
+     the refutation witnesses).  An operation the registry refuses answers `err_ans` and changes nothing. *)
 From Coq Require Import ZArith NArith List Bool.
 Import ListNotations.
 Open Scope Z_scope.
@@ -187,19 +189,27 @@ Definition wrun (age_fix : bool) (ca cb : cfg) (w : world) (h : list wop) : worl
 (* ------------------------------------------------------------------------------------------------ *)
 Open Scope N_scope.
 
-(* tables: chains (chain key -> ordered children, all non-chains), summary rows (collection, dataset type),
-   datasets (id, dataset type, run).  Collections are numbers; a key that has a row in `chains` is CHAINED. *)
-Record tables := mkTables { chains : list (N * list N); summ : list (N * N); data : list (N * N * N) }.
+(* tables: existing collections (name -> integer key), chains (chain name -> ordered children, all non-chains),
+   summary rows (collection, dataset type), datasets (id, dataset type, run).  Rows are written here by collection
+   NAME: the tables are always read afresh and name <-> key is a bijection at every moment, so only the summary
+   CACHE, which outlives a removal, needs the key.  A name that has a row in `chains` is CHAINED. *)
+Record tables := mkTables { ckeys : list (N * N); chains : list (N * list N); summ : list (N * N); data : list (N * N * N) }.
+Definition empty_tables : tables := mkTables [] [] [] [].
 
-(* caches: None outside a caching context *)
+(* caches: None outside a caching context; rcache by name, scache by KEY *)
 Record caches := mkCaches { rcache : option (list (N * list N)); scache : option (list (N * list N)) }.
 Definition no_caches : caches := mkCaches None None.
 
 Fixpoint lookup {A} (k : N) (l : list (N * A)) : option A :=
   match l with [] => None | (k', v) :: r => if k' =? k then Some v else lookup k r end.
-Definition set_key {A} (k : N) (v : A) (l : list (N * A)) : list (N * A) :=
-  (k, v) :: filter (fun p => negb (fst p =? k)) l.
+Definition del_key {A} (k : N) (l : list (N * A)) : list (N * A) := filter (fun p => negb (fst p =? k)) l.
+Definition set_key {A} (k : N) (v : A) (l : list (N * A)) : list (N * A) := (k, v) :: del_key k l.
 Definition memN (x : N) (l : list N) : bool := existsb (N.eqb x) l.
+
+Definition key_of (t : tables) (c : N) : option N := lookup c (ckeys t).
+Definition max_key (t : tables) : N := fold_left N.max (map snd (ckeys t)) 0.
+Definition is_kid (t : tables) (c : N) : bool := existsb (fun p => memN c (snd p)) (chains t).
+Definition err_ans : list N := [9999].
 
 (* summary of one non-chain collection, from the tables *)
 Definition table_summary (t : tables) (c : N) : list N :=
@@ -222,26 +232,33 @@ Definition children_of (t : tables) (cs : caches) (c : N) : option (list N) * ca
       end
   end.
 
-(* fetch_summaries for one collection: cache hit, else read the tables (a chain = union over its
+Definition cache_member (t : tables) (acc : list (N * list N)) (m : N) : list (N * list N) :=
+  match key_of t m with Some km => set_key km (table_summary t m) acc | None => acc end.
+
+(* fetch_summaries for one collection: cache hit BY KEY, else read the tables (a chain = union over its
    flattened children) and store the result *)
 Definition fetch_summary (t : tables) (cs : caches) (c : N) : list N * caches :=
-  let hit := match scache cs with Some sc => lookup c sc | None => None end in
-  match hit with
-  | Some s => (s, cs)
-  | None =>
-      let '(kids, cs1) := children_of t cs c in
-      let members := match kids with Some l => l | None => [c] end in
-      let s := match kids with
-               | Some l => union_all (map (table_summary t) l)
-               | None => table_summary t c
-               end in
-      let sc' := match scache cs1 with
-                 | Some sc =>
-                     let sc1 := fold_left (fun acc m => set_key m (table_summary t m) acc) members sc in
-                     Some (match kids with Some _ => set_key c s sc1 | None => sc1 end)
-                 | None => None
+  match key_of t c with
+  | None => (err_ans, cs)
+  | Some k =>
+    let hit := match scache cs with Some sc => lookup k sc | None => None end in
+    match hit with
+    | Some s => (s, cs)
+    | None =>
+        let '(kids, cs1) := children_of t cs c in
+        let members := match kids with Some l => l | None => [c] end in
+        let s := match kids with
+                 | Some l => union_all (map (table_summary t) l)
+                 | None => table_summary t c
                  end in
-      (s, mkCaches (rcache cs1) sc')
+        let sc' := match scache cs1 with
+                   | Some sc =>
+                       let sc1 := fold_left (cache_member t) members sc in
+                       Some (match kids with Some _ => set_key k s sc1 | None => sc1 end)
+                   | None => None
+                   end in
+        (s, mkCaches (rcache cs1) sc')
+    end
   end.
 
 Definition datasets_in (t : tables) (ty c : N) : list N :=
@@ -258,20 +275,31 @@ Fixpoint query_members (t : tables) (cs : caches) (ty : N) (ms : list N) : list 
       ((if memN ty s then datasets_in t ty m else []) ++ rest, cs2)
   end.
 Definition query_datasets (t : tables) (cs : caches) (ty c : N) : list N * caches :=
-  let '(kids, cs1) := children_of t cs c in
-  query_members t cs1 ty (match kids with Some l => l | None => [c] end).
+  match key_of t c with
+  | None => (err_ans, cs)
+  | Some _ =>
+    let '(kids, cs1) := children_of t cs c in
+    query_members t cs1 ty (match kids with Some l => l | None => [c] end)
+  end.
 
 Inductive rop :=
 | Enter | Exit                         (* caching_context() entered / left *)
+| Register (c : N) (chain : bool)      (* registerRun / registerCollection(TAGGED) / registerCollection(CHAINED) *)
+| RemoveColl (c : N)                   (* removeCollection (datasets, summary rows, chain row cascade) *)
 | SetChain (c : N) (kids : list N)     (* setCollectionChain (allowed inside a context) *)
 | Put (id ty run : N)                  (* insert a dataset: data row + summary row *)
 | QSummary (c : N)                     (* getCollectionSummary(c).dataset_types *)
 | QData (ty c : N).                    (* query_datasets *)
 
 Definition rstate := (tables * caches)%type.
+Record fixes := mkFixes { chain_fix : bool; rm_fix : bool }.
+Definition as_coded : fixes := mkFixes true true.
+
+Definition is_chain_b (t : tables) (c : N) : bool := match lookup c (chains t) with Some _ => true | None => false end.
+Definition exists_b (t : tables) (c : N) : bool := match key_of t c with Some _ => true | None => false end.
 
 (* use_cache = false is the same client with caching contexts switched off (Enter is a no-op) *)
-Definition rstep (chain_fix use_cache : bool) (s : rstate) (o : rop) : rstate * list N :=
+Definition rstep (fx : fixes) (use_cache : bool) (s : rstate) (o : rop) : rstate * list N :=
   let '(t, cs) := s in
   match o with
   | Enter => if use_cache
@@ -279,22 +307,43 @@ Definition rstep (chain_fix use_cache : bool) (s : rstate) (o : rop) : rstate * 
                                 (match scache cs with None => Some [] | x => x end)), [])
              else (s, [])
   | Exit => ((t, no_caches), [])
+  | Register c chain =>
+      if exists_b t c then (s, [])
+      else
+        let t' := mkTables ((c, 1 + max_key t) :: ckeys t) (if chain then set_key c [] (chains t) else chains t) (summ t) (data t) in
+        let rc' := match rcache cs with Some rc => Some (if chain then set_key c [] rc else rc) | None => None end in
+        ((t', mkCaches rc' (scache cs)), [])
+  | RemoveColl c =>
+      if negb (exists_b t c) || is_kid t c then (s, err_ans)
+      else
+        let t' := mkTables (del_key c (ckeys t)) (del_key c (chains t)) (del_key c (summ t))
+                           (filter (fun d => negb (snd d =? c)) (data t)) in
+        let rc' := match rcache cs with Some rc => Some (del_key c rc) | None => None end in
+        let sc' := match scache cs with Some sc => if rm_fix fx then Some [] else Some sc | None => None end in
+        ((t', mkCaches rc' sc'), [])
   | SetChain c kids =>
-      let t' := mkTables (set_key c kids (chains t)) (summ t) (data t) in
-      let rc' := match rcache cs with Some rc => Some (set_key c kids rc) | None => None end in
-      let sc' := match scache cs with Some sc => if chain_fix then Some [] else Some sc | None => None end in
-      ((t', mkCaches rc' sc'), [])
+      if is_chain_b t c && forallb (fun m => exists_b t m && negb (is_chain_b t m)) kids
+      then
+        let t' := mkTables (ckeys t) (set_key c kids (chains t)) (summ t) (data t) in
+        let rc' := match rcache cs with Some rc => Some (set_key c kids rc) | None => None end in
+        let sc' := match scache cs with Some sc => if chain_fix fx then Some [] else Some sc | None => None end in
+        ((t', mkCaches rc' sc'), [])
+      else (s, err_ans)
   | Put id ty run =>
-      let t' := mkTables (chains t) (if existsb (fun p => (fst p =? run) && (snd p =? ty)) (summ t) then summ t else summ t ++ [(run, ty)])
-                         (data t ++ [(id, ty, run)]) in
-      ((t', mkCaches (rcache cs) (match scache cs with Some _ => Some [] | None => None end)), [])
+      if exists_b t run && negb (is_chain_b t run)
+      then
+        let t' := mkTables (ckeys t) (chains t)
+                           (if existsb (fun p => (fst p =? run) && (snd p =? ty)) (summ t) then summ t else summ t ++ [(run, ty)])
+                           (data t ++ [(id, ty, run)]) in
+        ((t', mkCaches (rcache cs) (match scache cs with Some _ => Some [] | None => None end)), [])
+      else (s, err_ans)
   | QSummary c => let '(s', cs') := fetch_summary t cs c in ((t, cs'), s')
   | QData ty c => let '(r, cs') := query_datasets t cs ty c in ((t, cs'), r)
   end.
 
-Fixpoint rrun (chain_fix use_cache : bool) (s : rstate) (h : list rop) : rstate * list (list N) :=
+Fixpoint rrun (fx : fixes) (use_cache : bool) (s : rstate) (h : list rop) : rstate * list (list N) :=
   match h with
   | [] => (s, [])
-  | o :: r => let '(s1, a) := rstep chain_fix use_cache s o in
-              let '(s2, as_) := rrun chain_fix use_cache s1 r in (s2, a :: as_)
+  | o :: r => let '(s1, a) := rstep fx use_cache s o in
+              let '(s2, as_) := rrun fx use_cache s1 r in (s2, a :: as_)
   end.
